@@ -1,1 +1,129 @@
-static void oracle_hello(const vcfg *c, const uint8_t *f, size_t n) { (void)c; (void)f; (void)n; }
+/* Discover class: Hello oracle (C03 header rules, C04 property list, C02 structure).
+ * Hostname and SSID source lengths are compile-time constants of the query
+ * (HOSTLEN, SSIDLEN in 0..40; the driver sweeps them); everything else is symbolic. */
+#ifndef HOSTLEN
+#define HOSTLEN 0
+#endif
+#ifndef SSIDLEN
+#define SSIDLEN 0
+#endif
+#define HL_EFF ((HOSTLEN) > 32 ? 32 : (HOSTLEN))
+#define SL_EFF ((SSIDLEN) > 32 ? 32 : (SSIDLEN))
+
+static bool g_hello_seen;
+
+/* expected value byte k of a big-endian 32-bit number */
+static uint8_t be32_byte(uint32_t v, unsigned k) { return (uint8_t)(v >> (24 - 8 * k)); }
+
+static void oracle_hello(const vcfg *c, const uint8_t *f, size_t n) {
+    g_hello_seen = true;
+    V_ASSERT(g_nsend == 1, "C02,C03: exactly one Hello per accepted Discover");
+    /* ---- C03: base header + Hello header */
+    V_ASSERT(f[F_OP] == 1, "C03: an accepted Discover is answered by a Hello");
+    V_ASSERT(mac6_is_bcast(f + F_EDST) && mac6_is_bcast(f + F_RDST), "C03: Hello is broadcast at Ethernet and LLTD level");
+    V_ASSERT(mac6_eq(f + F_ESRC, c->mac) && mac6_eq(f + F_RSRC, c->mac), "C03: Hello sourced from the interface's own address");
+    V_ASSERT(f[F_TOS] == in.frame[F_TOS], "C03: Hello has the same service type as the Discover");
+    V_ASSERT(f[F_SEQ] == 0 && f[F_SEQ + 1] == 0, "C03: Hello sequence number is zero");
+    V_ASSERT(n >= 46, "C02: Hello carries its Hello header");
+    V_ASSERT(f[32] == in.frame[32] && f[33] == in.frame[33], "C03: Hello carries the generation number of that very Discover");
+    V_ASSERT(mac6_eq(f + 34, in.frame + F_RSRC), "C03: Hello names the Discover's real source as current mapper");
+    V_ASSERT(mac6_eq(f + 40, in.frame + F_ESRC), "C03: Hello names the Discover's Ethernet source as apparent mapper");
+
+    /* ---- C04 / C02: property list, positional */
+    bool wifi = !c->wifi_fail;
+    bool bss = wifi && !c->bssid_fail;
+    size_t o = 46;
+    /* 0x01 host id: first */
+    V_ASSERT(f[o] == 0x01 && f[o + 1] == 6, "C02,C04: host identifier comes first, length 6");
+    V_ASSERT(mac6_eq(f + o + 2, c->mac), "C04: host identifier is the interface's hardware address");
+    o += 8;
+    V_ASSERT(f[o] == 0x02 && f[o + 1] == 4, "C02,C04: characteristics property, length 4");
+    V_ASSERT(f[o + 2] == (uint8_t)(c->flags >> 8) && f[o + 3] == (uint8_t)c->flags && f[o + 4] == 0 && f[o + 5] == 0, "C04: characteristics flags in the upper 16 bits, big-endian");
+    o += 6;
+    V_ASSERT(f[o] == 0x03 && f[o + 1] == 4, "C02,C04: physical medium property, length 4");
+    if (!c->iftype_fail)
+        V_ASSERT(f[o + 2] == be32_byte(c->iftype, 0) && f[o + 3] == be32_byte(c->iftype, 1) && f[o + 4] == be32_byte(c->iftype, 2) && f[o + 5] == be32_byte(c->iftype, 3), "C04: interface type big-endian");
+    o += 6;
+    V_ASSERT(f[o] == 0x07 && f[o + 1] == 4, "C02,C04: IPv4 property, length 4");
+    if (!c->ipv4_fail) {
+        const uint8_t *ip = (const uint8_t *)&c->ipv4;       /* supplied in network order: bytes copied as they are */
+        V_ASSERT(f[o + 2] == ip[0] && f[o + 3] == ip[1] && f[o + 4] == ip[2] && f[o + 5] == ip[3], "C04: IPv4 address as supplied by the platform");
+    }
+    o += 6;
+    V_ASSERT(f[o] == 0x08 && f[o + 1] == 16, "C02,C04: IPv6 property, length 16");
+    if (!c->ipv6_fail) {
+        bool same = true;
+        for (int k = 0; k < 16; k++) if (f[o + 2 + k] != c->ipv6[k]) same = false;
+        V_ASSERT(same, "C04: IPv6 address as supplied by the platform");
+    }
+    o += 18;
+    V_ASSERT(f[o] == 0x0A && f[o + 1] == 8, "C02,C04: performance counter frequency property, length 8");
+    V_ASSERT(f[o + 2] == 0 && f[o + 3] == 0 && f[o + 4] == 0 && f[o + 5] == 0 && f[o + 6] == 0 && f[o + 7] == 0x0F && f[o + 8] == 0x42 && f[o + 9] == 0x40, "C04: fixed performance-counter frequency 1 000 000 big-endian");
+    o += 10;
+    V_ASSERT(f[o] == 0x0C && f[o + 1] == 4, "C02,C04: link speed property, length 4");
+    if (!c->speed_fail)
+        V_ASSERT(f[o + 2] == be32_byte(c->speed, 0) && f[o + 3] == be32_byte(c->speed, 1) && f[o + 4] == be32_byte(c->speed, 2) && f[o + 5] == be32_byte(c->speed, 3), "C04: link speed big-endian");
+    o += 6;
+    V_ASSERT(f[o] == 0x0F && f[o + 1] == HL_EFF, "C02,C04: machine name property, at most 32 bytes");
+    {
+        bool same = true;
+        for (int k = 0; k < HL_EFF; k++) if (f[o + 2 + k] != g_plat.hostname[k]) same = false;
+        V_ASSERT(same, "C04: machine name bytes as supplied (first 32)");
+    }
+    o += 2 + HL_EFF;
+    if (wifi) {
+        V_ASSERT(f[o] == 0x04 && f[o + 1] == 1 && f[o + 2] == c->wifi_mode, "C04: wireless mode property on wireless interfaces");
+        o += 3;
+        if (bss) {
+            V_ASSERT(f[o] == 0x05 && f[o + 1] == 6 && mac6_eq(f + o + 2, c->bssid), "C04: BSSID property as supplied");
+            o += 8;
+        }
+        V_ASSERT(f[o] == 0x06 && f[o + 1] == SL_EFF, "C02,C04: SSID property, at most 32 bytes");
+        {
+            bool same = true;
+            for (int k = 0; k < SL_EFF; k++) if (f[o + 2 + k] != c->ssid[k]) same = false;
+            V_ASSERT(same, "C04: SSID bytes as supplied (first 32)");
+        }
+        o += 2 + SL_EFF;
+        V_ASSERT(f[o] == 0x09 && f[o + 1] == 2, "C02,C04: maximum rate property, length 2");
+        if (!c->rate_fail) V_ASSERT(f[o + 2] == (uint8_t)(c->rate >> 8) && f[o + 3] == (uint8_t)c->rate, "C04: maximum rate big-endian");
+        o += 4;
+        V_ASSERT(f[o] == 0x0D && f[o + 1] == 4, "C02,C04: signal strength property, length 4");
+        if (!c->rssi_fail) {
+            uint8_t ext = (c->rssi < 0) ? 0xFF : 0x00;
+            V_ASSERT(f[o + 2] == ext && f[o + 3] == ext && f[o + 4] == ext && f[o + 5] == (uint8_t)c->rssi, "C04: signal strength keeps its sign (sign-extended big-endian)");
+        }
+        o += 6;
+    }
+    V_ASSERT(f[o] == 0x14 && f[o + 1] == 4 && f[o + 2] == 0xE0 && f[o + 3] == 0 && f[o + 4] == 0 && f[o + 5] == 0, "C04: fixed QoS characteristics E0 00 00 00");
+    o += 6;
+    V_ASSERT(f[o] == 0x0E && f[o + 1] == 0, "C02: icon image property is an empty large-property marker");
+    o += 2;
+    V_ASSERT(f[o] == 0x11 && f[o + 1] == 0, "C02: friendly name property is an empty large-property marker");
+    o += 2;
+    V_ASSERT(f[o] == 0x00, "C02: property list ends with the end marker");
+    o += 1;
+    V_ASSERT(n == o, "C02: Hello ends exactly at its end marker (no trailing bytes)");
+}
+
+void h_discover(void) {
+    common_setup(0);
+    g_class = CL_HELLO;
+    g_plat.hostname_len = HOSTLEN;          /* concrete per query */
+    g_cfgA.ssid_len = SSIDLEN;
+    V_ASSUME(is_disc_tos(in.frame[F_TOS]) && in.frame[F_OP] == opcode_discover);
+    long live0 = g_live_blocks;
+    bool accept = from_mapper_or_none();
+    unsigned pre_n = in.st.n;
+    parseFrame(RX, &g_cfgA);
+    if (accept) {
+        V_ASSERT(g_nsend == 1 && g_hello_seen, "C03,C05: an accepted Discover is answered by exactly one Hello");
+        V_ASSERT(ST->mapper_known == 1 && mac6_eq(ST->mapper_real.a, in.frame + F_RSRC), "C05: accepted Discover's sender is the active mapper");
+    } else {
+        V_ASSERT(g_nsend == 0, "C05: a Discover from another station gets no reply while a mapper is active");
+        V_ASSERT(ST->mapper_known == 1 && mac6_eq(ST->mapper_real.a, in.st.mreal), "C05: a foreign Discover does not change the mapper");
+    }
+    V_ASSERT(ST->see_list_count == pre_n, "C07: a Discover leaves recorded observations alone");
+    V_ASSERT(g_live_blocks == live0, "C19: Hello buffer released");
+    V_WITNESS("h_discover end");
+}
